@@ -280,6 +280,16 @@ var docFaultOps = []docFaultOp{
 		setValue(vs[pickN(t, "site", len(vs))].Value, &ref.Value{Kind: "Int", Raw: rapid.SampledFrom([]string{"2147483648", "-2147483649", "9999999999", "9223372036854775807", "9223372036854775808"}).Draw(t, "big")})
 		return true
 	}},
+	{"float-not-finite", "ValuesOfCorrectType", func(t *rapid.T, td *TypedDoc, s *ref.Schema) bool {
+		vs := valuesOf(td, func(v ValueSite) bool {
+			return namedNonList(v.Type) && v.Type.Name == "Float" && (v.Value.Kind == "Int" || v.Value.Kind == "Float")
+		})
+		if len(vs) == 0 {
+			return false
+		}
+		setValue(vs[pickN(t, "site", len(vs))].Value, &ref.Value{Kind: "Float", Raw: rapid.SampledFrom([]string{"1e999", "-1E400", "1.5e309", "179769313486231580793728971405303415079934132710037826936173778980444968292764750946649017977587207096330286416692887910946555547851940402630657488671505820681908902000708383676273854845817711531764475730270069855571366959622842914819860834936475292719074168444365510704342711559699508093042880177904174497792.0"}).Draw(t, "huge")})
+		return true
+	}},
 	{"null-for-non-null", "ValuesOfCorrectType", func(t *rapid.T, td *TypedDoc, s *ref.Schema) bool {
 		vs := valuesOf(td, func(v ValueSite) bool { return v.Type.NonNull })
 		if len(vs) == 0 {
@@ -956,7 +966,7 @@ func ApplyDocFault(t *rapid.T, td *TypedDoc, s *ref.Schema, idx int) (DocFault, 
 // handful of cases per run, so a third of the faulty documents try these first.
 var rareDocFaults = []string{"oneof-nullable-variable", "oneof-wrong-key-count-or-null", "missing-required-input-field", "unknown-input-field", "duplicate-input-field",
 	"conflict-leaf-vs-composite-in-exclusive-branches", "conflict-leaf-types-in-exclusive-branches", "subscription-introspection-root", "subscription-two-root-fields",
-	"int-outside-32-bits", "fragment-definition-on-input-type", "undefined-variable-nested", "duplicate-fragment-name", "variable-in-incompatible-position"}
+	"int-outside-32-bits", "float-not-finite", "fragment-definition-on-input-type", "undefined-variable-nested", "duplicate-fragment-name", "variable-in-incompatible-position"}
 
 // ApplyRareDocFault injects the first rarely applicable fault that has a target, starting at a
 // drawn position of the list.
